@@ -46,6 +46,8 @@ def build(v):
     if isinstance(v, dict):
         if '__dt__' in v:
             y, m, d, h, mi, s = v['__dt__']
+            if v.get('is_date'):
+                return _dt.date(y, m, d)
             return _dt.datetime(y, m, d, h, mi, s)
         if '__td__' in v:
             return _dt.timedelta(seconds=build(v['__td__']))
@@ -62,6 +64,9 @@ def build(v):
             return decimal.Decimal(v['__decimal__'])
         if '__absent__' in v:
             return ABSENT
+        if '__enum__' in v:
+            relpath, cname = v['__enum__'].split('::')
+            return getattr(getattr(module_of(relpath), cname), v['name'])
         if '__opaque__' in v:
             return object()
         if '__obj__' in v:
@@ -72,7 +77,13 @@ def build(v):
                 bx = build(x)
                 if bx is ABSENT:
                     continue
-                object.__setattr__(o, k, bx) if not k.startswith('__') else o.__dict__.__setitem__(k, bx)
+                if k.startswith('__') and not k.endswith('__'):
+                    # private name: stored under the mangled name of every class of the MRO (the defining class is one of them)
+                    o.__dict__[k] = bx
+                    for kls in cls.__mro__[:-1]:
+                        o.__dict__[f'_{kls.__name__.lstrip("_")}{k}'] = bx
+                else:
+                    object.__setattr__(o, k, bx)
             return o
         if '__table__' in v:
             return StubTable({build(k): build(x) for k, x in v['__table__']}, v.get('default_present'), build(v.get('default_value')))
@@ -214,7 +225,16 @@ def spec_env():
             m = importlib.import_module('specs.' + fn[:-3])
             env.update({k: v for k, v in vars(m).items() if not k.startswith('_')})
     import specs.native as nat
-    env.update({k: v for k, v in vars(nat).items() if not k.startswith('_')})
+    natives = {k: v for k, v in vars(nat).items() if not k.startswith('_')}
+    env.update(natives)
+    # spec functions call each other and the natives by bare name (one namespace for the symbolic interpreter):
+    # give every spec module the same view
+    for fn in sorted(os.listdir(d)):
+        if fn.endswith('.py') and fn not in ('__init__.py', 'native.py'):
+            m = sys.modules.get('specs.' + fn[:-3])
+            for k, v in env.items():
+                if not hasattr(m, k):
+                    setattr(m, k, v)
     return env
 
 
@@ -254,12 +274,29 @@ def main():
         sys.exit(4)
     # ghost parameters of the contract (not in the real signature) are kept for the clause but not passed
     import inspect
-    try:
-        sig_names = set(inspect.signature(fn).parameters)
-    except (TypeError, ValueError):
-        sig_names = set(args)
+    if d.get('signature'):
+        sig_names = set(d['signature'])      # from the AST of the real function (decorators hide it from inspect)
+    else:
+        try:
+            sig_names = set(inspect.signature(fn).parameters)
+        except (TypeError, ValueError):
+            sig_names = set(args)
     ghost = {k: v for k, v in args.items() if k not in sig_names and k != 'self'}
     args = {k: v for k, v in args.items() if k in sig_names or k == 'self'}
+    # derived parameters (contract expressions over the other parameters): recomputed natively when the file says how,
+    # because the model's value of an uninterpreted function (str(Decimal), lower, ...) is not the real one
+    for name, src in (d.get('param_exprs') or {}).items():
+        try:
+            envp = spec_env()
+            envp.update(ghost)
+            envp.update(args)
+            val = eval(compile(ast.parse(src.strip(), mode='eval'), '<param>', 'eval'), envp)
+        except Exception:
+            continue
+        if name in args:
+            args[name] = val
+        elif name in ghost:
+            ghost[name] = val
     old_args = copy.deepcopy({**args, **ghost})
     print('calling', d['target'], 'with', {k: repr(v)[:120] for k, v in args.items()})
 
@@ -273,7 +310,11 @@ def main():
     try:
         if 'self' in args and len(parts) == 2:
             s = args.pop('self')
-            result = getattr(s, parts[1] if not parts[1].startswith('__') or parts[1].endswith('__') else f'_{parts[0]}{parts[1]}')(**args)
+            attr = parts[1] if not parts[1].startswith('__') or parts[1].endswith('__') else f'_{parts[0]}{parts[1]}'
+            if isinstance(getattr(type(s), attr, None), property):
+                result = getattr(s, attr)            # a property getter under contract
+            else:
+                result = getattr(s, attr)(**args)
             args['self'] = s
         else:
             result = fn(**args)
@@ -310,9 +351,16 @@ def main():
         print(f'obligation kind {kind}: the witness is a loop/call-site state, not a function input')
         sys.exit(4)
     if exc is not None:
+        allowed = d.get('allow_raise') or []
+        if any(type(exc).__name__ == a or any(b.__name__ == a for b in type(exc).__mro__) for a in allowed):
+            print(f'real function raised {type(exc).__name__}, which the contract permits for some inputs: not a postcondition run')
+            sys.exit(4)
         print(f'real function raised {type(exc).__name__}: {exc}')
         sys.exit(1 if not isinstance(exc, TimeoutError) else 1)
-    print('result =', repr(result)[:300])
+    try:
+        print('result =', repr(result)[:300])
+    except Exception as e:      # a __repr__ that does not like stubbed fields
+        print('result = <unprintable:', type(e).__name__, '>')
     env = spec_env()
     env.update(ghost)
     env.update(args)
